@@ -58,7 +58,14 @@ func PathString(p []Event) string {
 // digests proposed, in order: crafted collisions first
 var digestNames = []string{"X", "Y255", "Sa", "Y24", "Sb", "Z", "Y128", "T", "Y254", "Z255", "Y27", "Y31", "Y23", "Y28", "Y32"}
 
+// DigestFn, when set, replaces the crafted digests (conformance runs use the digests the real server
+// computes from its events).
+var DigestFn func(i int) []byte
+
 func Digest(i int) []byte {
+	if DigestFn != nil {
+		return DigestFn(i)
+	}
 	if i < len(digestNames) {
 		return hx.ByName(digestNames[i])[0].D
 	}
@@ -579,6 +586,15 @@ func tableHash(s storage.Store) string {
 		parts = append(parts, hx.HashDump(hx.DumpTable(s, t)))
 	}
 	return strings.Join(parts, "/")
+}
+
+// TreeTablesHash: the three tree tables in the format of the node child's "state" answer.
+func (r *Replica) TreeTablesHash() string {
+	t := ""
+	for _, tb := range []storage.Table{storage.HyperTable, storage.HyperCacheTable, storage.HistoryTable} {
+		t += hx.HashDump(hx.DumpTable(r.rs, tb)) + "/"
+	}
+	return t
 }
 
 func (c *Cluster) Golden() *Golden {
